@@ -10,8 +10,8 @@ TRUSTED_BASE = [
 ]
 
 PROPS = {
-    "C01": dict(runs=[("dt", 400, 30000), ("bulk", 150, 8000)], lean_module="Spade.Properties.C01"),
-    "C02": dict(runs=[("dt", 300, 20000), ("cdt", 250, 20000), ("small", 250, 20000), ("bulk", 100, 6000), ("refine", 200, 4000)], lean_module="Spade.Properties.C02"),
+    "C01": dict(runs=[("dt", 400, 30000), ("bulk", 4000, 40000)], lean_module="Spade.Properties.C01"),
+    "C02": dict(runs=[("dt", 300, 20000), ("cdt", 250, 20000), ("small", 250, 20000), ("bulk", 100, 6000), ("refine", 200, 4000), ("splithull", 200, 8000)], lean_module="Spade.Properties.C02"),
     "C03": dict(runs=[("cdt", 400, 30000), ("split", 150, 8000), ("refine", 60, 2000)], lean_module="Spade.Properties.C03"),
     "C04": dict(runs=[("cdt", 500, 40000), ("bulk", 100, 6000)], lean_module="Spade.Properties.C04"),
     "C05": dict(runs=[("dt", 400, 30000), ("cdt", 250, 15000), ("small", 200, 15000)], lean_module="Spade.Properties.C05"),
@@ -20,7 +20,7 @@ PROPS = {
     "C08": dict(runs=[("pred", 20000, 1000000), ("invalid", 300, 20000)], lean_module="Spade.Properties.C08"),
     "C09": dict(runs=[("locate", 500, 40000), ("cdt", 150, 8000), ("dt", 300, 20000), ("small", 200, 15000)], lean_module="Spade.Properties.C09"),
     "C10": dict(runs=[("bulk", 500, 40000)], lean_module="Spade.Properties.C10"),
-    "C11": dict(runs=[("dt", 400, 30000), ("cdt", 300, 20000), ("small", 300, 20000)], lean_module="Spade.Properties.C11"),
+    "C11": dict(runs=[("dt", 400, 30000), ("cdt", 700, 30000), ("small", 300, 20000)], lean_module="Spade.Properties.C11"),
     "C12": dict(runs=[("cdt", 400, 30000), ("conq", 250, 15000)], lean_module="Spade.Properties.C12"),
     "C13": dict(runs=[("split", 500, 40000)], lean_module="Spade.Properties.C13"),
     "C14": dict(runs=[("hull", 300, 20000), ("small", 400, 30000), ("dt", 200, 10000), ("bulk", 100, 6000)], lean_module="Spade.Properties.C14"),
